@@ -262,7 +262,9 @@ pub fn check_c07(prop: &str, tier: &str) -> i32 {
             Err(_) => return (1, Some(("C14.a".to_string(), "deserialize panicked".to_string()))),
         };
         if enc == s.enc {
-            return (0, None);
+            // different bytes accepted as the very same encapsulation: the serialised form is
+            // malleable (the statement quantifies over every byte of the serialised form)
+            return (2, Some(("C07.a".to_string(), format!("{} with {}: accepted as the original encapsulation (it deserialises to an equal object)", s.name, m.what))));
         }
         for (kn, k) in &keys {
             match catch_unwind(AssertUnwindSafe(|| cc.decaps(k, &enc))) {
